@@ -294,3 +294,7 @@ def run(ck):
     from .. import condparity
     ck.floor("SIB/ref-conditions", condparity.check(ck, P, "SIB/ref-conditions", only={"deflate_fast.c:deflate_fast", "deflate_slow.c:deflate_slow", "deflate_medium.c:deflate_medium", "deflate_quick.c:deflate_quick", "deflate_rle.c:deflate_rle", "deflate_huff.c:deflate_huff", "deflate.c:deflate", "deflate_stored.c:deflate_stored", "inflate.c:inflateSync"}), 40)
     ck.assumptions += ["rustc MIR; CONFIGURATION_TABLE provenance from the const evaluator", "host target; K1"]
+
+# session 5 (round 9, D24)
+EXPLANATION = EXPLANATION + " " + (
+    "FIELD/copy-identity (shared with C14): a copy taken at a flush point has the source's bit buffer, bit count and every other state field.")
